@@ -312,13 +312,61 @@ GLOBAL_ALLOC = {'alloc::alloc::alloc': 'alloc', 'alloc::alloc::dealloc': 'deallo
                 'std::alloc::System::alloc': 'alloc'}
 
 
-def global_alloc_callers(db):
+def lift_exclusive(db, body_id, depth=0):
+    """a private function all of whose call sites sit in one other private function is a piece of that function
+    (extract-method refactoring): the role it plays (acquirer, releaser) is its caller's"""
+    b = db.bodies.get(body_id)
+    if b is None or depth > 3 or b['kind'] == 'closure':
+        return body_id
+    m = b['meta']
+    if m.get('pub') or m.get('impl_trait'):
+        return body_id
+    path = m.get('path') or body_id
+    sites = {cb['id'] for cb, bi, t in db.callers_of(path)} | {cb['id'] for cb, bi, t in db.callers_of(body_id)}
+    sites.discard(body_id)
+    if len(sites) != 1:
+        return body_id
+    g = db.bodies.get(next(iter(sites)))
+    if g is None or g['kind'] == 'closure' or g['meta'].get('pub') or g['meta'].get('impl_trait'):
+        return body_id
+    return lift_exclusive(db, g['id'], depth + 1)
+
+
+def global_alloc_callers_raw(db):
+    """kind -> [(body id that contains the call, span)] without lifting"""
     out = {}
     for b in db.fn_bodies():
         for bi, t in db.calls(b):
             p = t['callee'].get('path')
             if p in GLOBAL_ALLOC:
                 out.setdefault(GLOBAL_ALLOC[p], []).append((b['id'], t.get('span')))
+    return out
+
+
+def exclusive_chain(db, body_id):
+    """[body_id, its only caller, ...] up to the function lift_exclusive() stops at"""
+    chain = [body_id]
+    top = lift_exclusive(db, body_id)
+    cur = body_id
+    while cur != top and len(chain) < 5:
+        b = db.bodies[cur]
+        path = b['meta'].get('path') or cur
+        sites = {cb['id'] for cb, bi, t in db.callers_of(path)} | {cb['id'] for cb, bi, t in db.callers_of(cur)}
+        sites.discard(cur)
+        if len(sites) != 1:
+            break
+        cur = next(iter(sites))
+        chain.append(cur)
+    return chain
+
+
+def global_alloc_callers(db):
+    out = {}
+    for b in db.fn_bodies():
+        for bi, t in db.calls(b):
+            p = t['callee'].get('path')
+            if p in GLOBAL_ALLOC:
+                out.setdefault(GLOBAL_ALLOC[p], []).append((lift_exclusive(db, b['id']), t.get('span')))
     return out
 
 
